@@ -4,6 +4,7 @@
 package simtm
 
 import (
+	"strings"
 	"crypto/ecdsa"
 	"crypto/sha256"
 	"encoding/base64"
@@ -180,7 +181,7 @@ func (c *Chain) CheckTx(tx []byte) abcitypes.ResponseCheckTx {
 			first = resp
 		}
 		rc := resp
-		rc.Log, rc.Info = "", ""
+		rc.Log, rc.Info = logMessage(rc.Log), ""
 		out = append(out, &rc)
 	}
 	c.compare("CheckTx", out)
@@ -226,7 +227,8 @@ func (c *Chain) ExecBlock(txs [][]byte, now time.Time) *Block {
 				b.Deliver = append(b.Deliver, resp)
 			}
 			rc := resp
-			rc.Log, rc.Info = "", "" // free-text diagnostics (stack traces), not part of the result
+			// the message text is compared, the Go stack trace some errors print behind it is not
+			rc.Log, rc.Info = logMessage(rc.Log), ""
 			out = append(out, &rc)
 		}
 		c.compare(fmt.Sprintf("DeliverTx h=%d i=%d", c.Height, ti), out)
@@ -283,4 +285,13 @@ func InitialValidatorSet(validators []abcitypes.ValidatorUpdate) (*tmtypes.Valid
 		return nil, err
 	}
 	return tmtypes.NewValidatorSet(tmUpdates), nil
+}
+
+// logMessage returns the message part of an ABCI log: the first line (pkg/errors' %+v prints
+// the stack trace of the process on the following lines).
+func logMessage(s string) string {
+	if i := strings.IndexByte(s, '\n'); i >= 0 {
+		return s[:i]
+	}
+	return s
 }
